@@ -23,6 +23,9 @@ def run(tier, seed):
     progs += [Program(k, "<", a) for k in (["u8", "u32"], ["inner", "u16", "b8_part"], ["a_u16_3", "char", "i24"], ["b16_3", "u8"], ["anon_s", "u64"]) for a in (False, True)]
     if tier == "quick":
         progs = progs[::2]
+    from checks.t2util import prove_summaries
+
+    prove_summaries(rep, tier)
     rep.add_case_results(run_cases([("t2.cases", "make_assign", (p.to_json(),)) for p in progs]), "T2")
     rep.programs = len(progs)
     rnd = random.Random(seed)
